@@ -119,7 +119,7 @@ func (r *lockRoles) isNowPlusLeaseVL(v ssa.Value) *ssa.Call {
 		return nil
 	}
 	now, ok := ir.Resolve(add.Call.Args[0]).(*ssa.Call)
-	if !ok || ir.CalleeFullName(now) != "time.Now" || ir.LoadedField(add.Call.Args[1]) != r.leaseF {
+	if !ok || ir.CalleeFullName(now) != "time.Now" || r.leaseReadVG(add.Call.Args[1]) == nil {
 		return nil
 	}
 	return now
